@@ -7,9 +7,11 @@ nothing is encoded by libopenflow_01):
               handler table replaced by a recorder; every segment is queued on the socket and Connection.read()
               is called once per recv (recv(2048) hands a longer segment out in pieces, like TCP would).
   switch      mc.env.SwitchStack with a fresh RecocoIOWorker + OFConnection per case (built exactly as the stack
-              builds them), message handler replaced by a recorder; every segment goes through the worker's
-              real receive path RecocoIOWorker._do_recv (socket.recv(loop._BUF_SIZE) -> _push_receive_data ->
-              OFConnection.read).
+              builds them), message handler replaced by a recorder; the worker is registered with a REAL
+              RecocoIOLoop whose run() generator the harness resumes once per select() wake-up with the worker
+              readable (-> RecocoIOWorker._do_recv: socket.recv(loop._BUF_SIZE) -> _push_receive_data ->
+              OFConnection.read).  The socket is a scripted non-blocking one: at a wake-up it holds one segment,
+              recv hands out at most what is queued and raises EAGAIN when empty.
 
 Enumerated: every sequence of <= n messages over a size-chosen alphabet; for each stream every 1-cut, every
 fixed read size of a list (1 = the one-byte dribble), every 2-cut over the interesting positions (all 2-cuts for
@@ -21,7 +23,7 @@ Oracle (reference = the sender's own list of messages and their byte slices):
                          (never merged, dropped, duplicated or corrupted)
   after the last read    #delivered == #sent, reassembly buffer empty, connection still open
 """
-import bisect, gc, itertools, multiprocessing, os, resource, signal, struct, sys, traceback
+import bisect, errno, gc, itertools, multiprocessing, os, resource, signal, struct, sys, traceback
 from mc.engine import pmap
 from mc.report import Report
 from mc.refs import ofwire as W
@@ -184,10 +186,20 @@ class CtrlEnd (object):
   def open (self): return not self.sock.closed and not self.con.disconnected
 
 
-class _Loop (object):
-  """What RecocoIOWorker._do_recv needs from its RecocoIOLoop."""
-  _BUF_SIZE = 8192
-  def __init__ (self): self._workers = set()
+def _make_ioloop (worker):
+  """A real RecocoIOLoop with the worker registered, its run() generator advanced to its first Select.  The loop is
+  a recoco Task whose run() yields Select(...) and is resumed with (rlist, wlist, elist); the harness plays the
+  scheduler: one resumption with the worker in rlist = one select() wake-up with the socket readable.  Wake-up
+  pipes are replaced by counters (pox.lib.ioworker.makePinger rebound), nothing else."""
+  from mc import env
+  import pox.lib.ioworker as iow
+  iow.makePinger = env.FakePinger
+  loop = iow.RecocoIOLoop()
+  loop.register_worker(worker)
+  gen = loop.run()
+  sel = next(gen)                       # executes the pending registration, arrives at the first Select
+  if worker not in loop._workers: raise HarnessError("worker not registered with the I/O loop")
+  return loop, gen
 
 
 _SWSTACK = None
@@ -203,8 +215,13 @@ class SwitchEnd (object):
     swmod = st.swmod
     swmod.OFConnection.ID = 0          # one logger name for all cases (OFConnection makes a logger per ID)
     class SegSock (env.FakeSock):
+      """Non-blocking socket: rx is what the kernel holds at this wake-up; recv hands out at most n bytes of it and
+      raises EAGAIN when there is nothing (BlockingIOError is the socket.error a real non-blocking socket raises)."""
       rx = None
+      recvs = 0
       def recv (s, n, flags=0):
+        s.recvs += 1
+        if not s.rx: raise BlockingIOError(errno.EAGAIN, "Resource temporarily unavailable")
         c = s.rx.pop(0)
         if len(c) > n:
           s.rx.insert(0, c[n:]); c = c[:n]
@@ -212,9 +229,6 @@ class SwitchEnd (object):
     self.sock = SegSock(); self.sock.rx = []
     st.sock = self.sock
     st.worker = self.worker = RecocoIOWorker(self.sock)
-    self.worker.pinger = env.FakePinger()
-    self.closed = []
-    self.worker.on_close = lambda w: self.closed.append(w)
     st.conn = self.conn = swmod.OFConnection(self.worker)
     st.sw.set_connection(self.conn)
     self.rec = Recorder()
@@ -228,16 +242,24 @@ class SwitchEnd (object):
                                                 4: "EXCEPTION"}.get(reason, reason))
       return orig(reason, info)
     self.conn._error_handler = eh
-    self.loop = _Loop(); self.loop._workers.add(self.worker)
+    self.loop, self.gen = _make_ioloop(self.worker)     # sets worker.on_close / worker.pinger like the datapath's loop
 
   def feed (self, seg):
+    """The socket now holds `seg`; while it is readable, let the real loop service it: one resumption of
+    RecocoIOLoop.run with the worker in rlist (-> worker._do_recv(loop)) per select() wake-up."""
     sock = self.sock
     sock.rx.append(seg)
     while sock.rx:
       before = sum(len(c) for c in sock.rx)
-      self.worker._do_recv(self.loop)
+      try:
+        self.gen.send(([self.worker], [], []))
+      except StopIteration:
+        if "io-loop-ended" not in self.notes: self.notes.append("io-loop-ended")
       if self.worker.closed and "worker-closed" not in self.notes: self.notes.append("worker-closed")
-      yield before - sum(len(c) for c in sock.rx)
+      got = before - sum(len(c) for c in sock.rx)
+      if got == 0 and not self.notes: self.notes.append("wakeup-read-nothing")
+      yield got
+      if got == 0: break          # a wake-up that read nothing although data is queued: reported through notes / at-end
 
   def residual (self): return bytes(self.worker.receive_buf)
   def open (self): return not self.worker.closed and not self.sock.closed
@@ -360,7 +382,11 @@ def run_case (side, msgs, kind, arg, src="/repo", trace=None, end=None):
           return bad(clause, cls, what), profile, nreads, states
         checked += 1
       if end.notes:
-        return bad(end.notes[0], cls, "%s on a well-formed stream, %d bytes received" % (end.notes[0], fed)), profile, nreads, states
+        # the receiver gave up (closed / read() False / error handler): classed by the size of the read it happened in
+        rsz = 2048 if side == "controller" else 8192
+        rcls = "read-of-exactly-recv-size" if got and got % rsz == 0 else "read-shorter-than-recv-size" if got < rsz else "read-longer-than-recv-size"
+        return bad(end.notes[0], rcls, "%s on a well-formed stream: %d bytes received, the last read call took %d (recv size %d)"
+                   % (end.notes[0], fed, got, rsz)), profile, nreads, states
       if not profile or profile[-1][1] != len(log): profile.append((fed, len(log)))
       states.add((fed, len(end.residual())))
   if fed != len(stream): raise HarnessError("fed %d of %d bytes" % (fed, len(stream)))
@@ -404,14 +430,35 @@ def critical (lens):
   return sorted(p for p in P if 1 <= p <= L - 1)
 
 
+SERVICE_SIZES = (8191, 8192, 8193, 16383, 16384, 16385)      # around k * RecocoIOLoop._BUF_SIZE
+BULK_ALL_1CUTS_MAX_MSGS = 1000
+
+def size_cases (lens):
+  """The read-size boundary as an environment answer: at one wake-up the socket holds exactly n bytes for n around
+  k*8192 - from the start of the stream, and after an earlier read that ended at a (header-critical / message
+  boundary / arbitrary) offset a; the rest of the stream follows in one piece."""
+  L = sum(lens)
+  out = []
+  for a in sorted(set([0, 1, 4, 8, lens[0], lens[0] + 1, 1000, 8192])):
+    for n in SERVICE_SIZES:
+      c = tuple(p for p in (a, a + n) if 1 <= p <= L - 1)
+      if c and c not in out: out.append(c)
+  return out
+
+
 def cases_for (lens, threecuts):
   L = sum(lens)
   if len(lens) > 3:
-    # bulk streams (many messages arriving in few reads): unsegmented, every fixed read size, every 1-cut
+    # bulk streams (many messages arriving in few reads): unsegmented, every fixed read size, every 1-cut,
+    # the read-size boundary cases
     yield ("cuts", ())
-    for k in CHUNKS + [4096, 8191, 8192, 8193]:
+    for k in CHUNKS + [4096, 8191, 8192, 8193, 16383, 16384, 16385]:
       if k < L: yield ("chunk", k)
-    for p in range(1, L): yield ("cuts", (p,))
+    all1 = len(lens) <= BULK_ALL_1CUTS_MAX_MSGS
+    if all1:
+      for p in range(1, L): yield ("cuts", (p,))
+    for c in size_cases(lens):
+      if not (all1 and len(c) == 1): yield ("cuts", c)
     return
   yield ("cuts", ())
   for p in range(1, L): yield ("cuts", (p,))
@@ -421,7 +468,6 @@ def cases_for (lens, threecuts):
   for c in itertools.combinations(P, 2): yield ("cuts", c)
   if threecuts:
     for c in itertools.combinations(critical(lens), 3): yield ("cuts", c)
-
 
 
 # ---------------------------------------------------------------------------------------------------
@@ -644,6 +690,16 @@ def _worker_live (item):
   return rep
 
 
+def _seqtext (seq):
+  """a+a+a+b -> 3 x a + b"""
+  out = []
+  for name, grp in itertools.groupby(seq):
+    k = len(list(grp))
+    out.append(name if k == 1 else "%d x %s" % (k, name))
+  if len(out) > 8: out = out[:3] + ["... (%d messages)" % len(seq)]
+  return " + ".join(out)
+
+
 def _worker (item):
   side, seq, threecuts, src = item
   if side == "controller-live": return _worker_live(item)
@@ -681,7 +737,7 @@ def _worker (item):
     states |= st
     rep.outcome((side, seq, tuple(profile), v and v[0]))
     if v:
-      rep.violation(v[0], v[1] + " [sequence %s, %s %r]" % ("+".join(seq), kind, list(arg) if kind == "cuts" else arg),
+      rep.violation(v[0], v[1] + " [sequence %s, %s %r]" % (_seqtext(seq), kind, list(arg) if kind == "cuts" else arg),
                     dict(side=side, seq=list(seq), kind=kind, arg=list(arg) if kind == "cuts" else arg))
     elif kind == "cuts" and len(arg) == 2 and first and len(seq) > 1:
       first = False
@@ -743,6 +799,11 @@ def run (cfg):
     for n in (33, 40, 100, 300) if cfg.quick else (17, 33, 40, 64, 65, 100, 300, 1000):
       items.append((side, (small,) * n, threecuts, cfg.pox_src))
       items.append((side, (small, second) * (n // 2), threecuts, cfg.pox_src))
+    # streams longer than two receive buffers of the switch's I/O loop (8192): few big messages, many small ones
+    # (switch side only: the controller's recv size is 2048 and k*2048 is inside the 2500-byte streams above)
+    if side == "switch":
+      items.append((side, (names[-1],) * 7, threecuts, cfg.pox_src))
+      items.append((side, (second,) * 1366, threecuts, cfg.pox_src))
   # heavy streams first so the pool drains evenly (order only; every item is run)
   items.sort(key=lambda it: -sum(len(m) for m in build(it[0], it[1])))
   if not cfg.only or cfg.only == "controller-live":
@@ -776,7 +837,7 @@ def replay (cfg, data):
   msgs = build(side, seq)
   trace = []
   v, profile, nreads, st = run_case(side, msgs, kind, tuple(arg) if kind == "cuts" else arg, cfg.pox_src, trace=trace)
-  lines = ["%s side, sequence %s (lengths %s), %s %r" % (side, "+".join(seq), [len(m) for m in msgs], kind, arg)]
+  lines = ["%s side, sequence %s (%d bytes), %s %r" % (side, _seqtext(seq), sum(len(m) for m in msgs), kind, arg)]
   lines += trace[:40] + (["... (%d reads)" % len(trace)] if len(trace) > 40 else [])
   lines.append("=> %s" % (("%s: %s" % v) if v else "delivered exactly the sent sequence, buffer empty"))
   return bool(v), "\n".join(lines)
